@@ -264,7 +264,17 @@ pub fn c04_image(data: &[u8]) -> PResult {
     let mut b = Bytes::new(data);
     let id = b.codec();
     match b.u8() % 4 {
-        0 => c04::int_dispatch(&c04::IntCase { codec: id, s: b.spec(id, 70) }),
+        0 => {
+            // integer conversion is stated for non-empty sequences
+            let mut s = b.spec(id, 70);
+            if s.codes.is_empty() {
+                s.codes = b.codes(id, 1);
+            }
+            if matches!(s.repr, Repr::Static(_)) {
+                s.repr = Repr::Collect;
+            }
+            c04::int_dispatch(&c04::IntCase { codec: id, s })
+        }
         1 => c04::raw_dispatch(&c04::RawCase { codec: id, words: b.words(4) }),
         _ => {
             let s = b.aligned_owned_spec(id, 160);
@@ -350,7 +360,16 @@ pub fn c18_serde(data: &[u8]) -> PResult {
 pub fn c20_mask(data: &[u8]) -> PResult {
     let mut b = Bytes::new(data);
     let id = if b.u8() % 2 == 0 { CodecId::MDna } else { CodecId::MIupac };
-    c20::dispatch(&c20::Case { codec: id, s: b.owned_spec(id, 160) })
+    // as in the proptest strategy: no '?' / '!' in the content, for which no case mapping is claimed
+    let m = id.model();
+    let allowed: Vec<u8> = m.syms.iter().filter(|s| s.1 != b'?' && s.1 != b'!').map(|s| s.0).collect();
+    let mut s = b.owned_spec(id, 160);
+    for c in s.codes.iter_mut() {
+        if !allowed.contains(c) {
+            *c = allowed[0];
+        }
+    }
+    c20::dispatch(&c20::Case { codec: id, s })
 }
 
 pub const TARGETS: [&str; 12] = ["c01_parse", "c19_trim", "c03_slice", "c11_iter", "c06_edits", "c07_revcomp", "c02_pairs", "c04_image", "c10_order", "c12_sets", "c18_serde", "c20_mask"];
